@@ -166,10 +166,10 @@ Print Assumptions C09_F38_orig_agrees.
 
 (* the ordinal flag of the model is the IMAGE_ORDINAL_FLAG32/64 constant of src/image.rs, regenerated on every run *)
 From PV.gen Require Consts.
-From PV.Proofs Require ConstsAgree.
+From PV.Proofs Require ConstsImports.
 Theorem C09_constants_match_source : forall p,
   ordinal_flag p = if Headers.f_64 (p_f p) then Consts.K_IMAGE_ORDINAL_FLAG64 else Consts.K_IMAGE_ORDINAL_FLAG32.
-Proof. exact ConstsAgree.imports_consts. Qed.
+Proof. exact ConstsImports.imports_consts. Qed.
 Print Assumptions C09_constants_match_source.
 
 Example C09_nonvacuous :
